@@ -156,6 +156,7 @@ type runObs struct {
 	wd      time.Duration
 	proto   string // "" or what is wrong with the submit/collect bookkeeping seen in the trace
 	handler string // "" or what is wrong with the calls of the state handlers (pre/post processors)
+	flag    string // "" or a handed-off task whose error flag is not the outcome of its body
 }
 
 type built struct {
@@ -443,7 +444,26 @@ func (b *built) once(seed uint64, traced bool) *runObs {
 			case "spawn", "sync":
 				o.spawned++
 				sub[e.Key]++
+			case "push":
+				// a panic / an error of the node body is that task's error from the moment the task is
+				// handed off (the pushed entry is what the collector will look at)
+				if id, ok := nodeNum(e.Key); ok && o.flag == "" {
+					if n := b.byID[int(id)]; n != nil && (n.Fail == 1 || n.Fail == 2) != e.Err {
+						if e.Err {
+							o.flag = "task " + e.Key + " was handed off with an error although its body succeeded"
+						} else if n.Fail == 2 {
+							o.flag = "task " + e.Key + " panicked and was handed to the collector without an error: the panic is not (yet) that task's error"
+						} else {
+							o.flag = "task " + e.Key + " returned an error and was handed to the collector without it"
+						}
+					}
+				}
 			case "recv":
+				if id, ok := nodeNum(e.Key); ok && o.flag == "" {
+					if n := b.byID[int(id)]; n != nil && (n.Fail == 1 || n.Fail == 2) != e.Err {
+						o.flag = "the collector received task " + e.Key + " with an error flag that is not the outcome of its body"
+					}
+				}
 				got[e.Key]++
 				if got[e.Key] > sub[e.Key] && o.proto == "" {
 					if sub[e.Key] == 0 {
@@ -1183,6 +1203,9 @@ func (engine) Run(ci any) lib.Result {
 		}
 		if o.handler != "" {
 			fail("handler-bookkeeping", fmt.Sprintf("delay seed %d: %s", seed, o.handler))
+		}
+		if o.flag != "" {
+			fail("handoff-error-flag", fmt.Sprintf("delay seed %d: %s", seed, o.flag))
 		}
 		if traced {
 			out.Traces++
